@@ -74,14 +74,22 @@ fn get_node_cover_range_impl(
         | SyntaxKind::Args
         | SyntaxKind::Params
         | SyntaxKind::Destructuring
-            if !matches!(mode, Mode::Math) =>
+            if !mode.is_math() =>
         {
             Mode::CodeCont
         }
         _ => mode,
     };
+    let mut at_hash = false;
     for child in node.children() {
-        if let Some(res) = get_node_cover_range_impl(range.clone(), child, mode) {
+        // An expression behind a hash inside an equation is code, not math.
+        let child_mode = if at_hash && mode.is_math() {
+            Mode::Code
+        } else {
+            mode
+        };
+        at_hash = child.kind() == SyntaxKind::Hash;
+        if let Some(res) = get_node_cover_range_impl(range.clone(), child, child_mode) {
             return Some(res);
         }
     }
